@@ -107,6 +107,8 @@ def check_accessors(ro, add, order=None):
     before = ElementTree.tostring(ro.xml, encoding='unicode')
     root = canon_et(ro.xml)
     v = RoView(root)
+    if v.rc is None:
+        return      # no running-order element at all: C14.envelope reports that; there is nothing to read
     exp_stories = v.stories()
 
     def get(label, fn):
@@ -236,6 +238,8 @@ def check_accessors(ro, add, order=None):
                     add('C16.timing', 'ro.end_time %r for a running order without stories' % (ro_end,))
             elif last_end is not None and ro_end != last_end[1]:
                 add('C16.timing', 'ro.end_time %r, last story ends %r' % (ro_end, last_end[1]))
+                if exp_explicit(exp_stories[-1], 'StoryEnded') is not None:
+                    add('C15.accessor', 'ro.end_time %r does not agree with the StoryEnded of the last story in the XML' % (ro_end,))
     after = ElementTree.tostring(ro.xml, encoding='unicode')
     if after != before:
         add('C15.accessor', 'reading the accessors changed the running order')
@@ -290,7 +294,7 @@ def check_roundtrip(ro, add, orig_mid, orig_roid, expect_completed):
     if len(v.metas) > 1:
         add('C14.envelope', '%d completion records' % len(v.metas))
     mids = [x[2] for x in v.envelope if x[0] == 'messageID']
-    if mids != [str(orig_mid)]:
+    if [m.strip() for m in mids] != [str(orig_mid)]:
         add('C14.envelope', 'messageID %r, original %r' % (mids, orig_mid))
     else:
         try:
